@@ -20,6 +20,9 @@ def run(ctx):
     T = [("g1f3 g8f6 b1c3 b8c6", "b1c3 b8c6 g1f3 g8f6"), ("e2e3 e7e6 d2d3 d7d6", "d2d3 d7d6 e2e3 e7e6"),
          ("g1f3 g8f6 f3g1 f6g8 e2e4", "e2e4"), ("b1c3 g8f6 c3b1 f6g8 g1f3 b8c6 f3g1 c6b8 d2d4 d7d5", "d2d4 d7d5"),
          ("e2e4 e7e5 g1f3 b8c6 f1c4 f8c5 e1g1 g8f6", "g1f3 b8c6 e2e4 e7e5 f1c4 g8f6 e1g1 f8c5")]
+    combos = posgen.filter_valid(model, posgen.combo_positions(ctx.rng, 60 if q else 600))
+    games += posgen.all_moves_games(model, combos)
+    ctx.notes['combo_template_positions'] = len(combos)
     for a, b in T:
         games.append((posgen.START, a.split()))
         games.append((posgen.START, b.split()))
